@@ -464,6 +464,8 @@ class Interp:
                 cur.extend(v)
             elif isinstance(st.op, ast.BitOr) and isinstance(cur, set) and isinstance(v, set):
                 cur |= v             # in place, like the real set
+            elif isinstance(st.op, ast.Add) and isinstance(cur, str) and isinstance(v, str) and not cur.startswith("<") and not v.startswith("<"):
+                self.assign(st.target, cur + v, env, f)
             elif all(isinstance(x, int) and not isinstance(x, bool) for x in (cur, v)) and isinstance(st.op, (ast.Add, ast.Sub, ast.Mult)):
                 self.assign(st.target, cur + v if isinstance(st.op, ast.Add) else cur - v if isinstance(st.op, ast.Sub) else cur * v, env, f)
             else:
@@ -603,6 +605,9 @@ class Interp:
                 return TOP
             if isinstance(a, str) and isinstance(b, str) and not a.startswith("<") and not b.startswith("<"):
                 return (a in b) if isinstance(op, ast.In) else (a not in b)
+            if isinstance(b, (tuple, list)) and isinstance(a, float) and all(isinstance(x, (str, int, float, type(None))) for x in b):
+                r = a in b           # a concrete float among constants
+                return r if isinstance(op, ast.In) else (not r)
             if isinstance(b, (tuple, list, dict)) and isinstance(a, (str, int, type(None))):
                 if isinstance(b, dict) or all(isinstance(x, (str, int, type(None))) for x in b):
                     r = a in b
@@ -914,7 +919,7 @@ class Interp:
                 return a + b
             if isinstance(e.op, ast.Add) and isinstance(a, str) and isinstance(b, str) and not a.startswith("<") and not b.startswith("<"):
                 return a + b
-            if isinstance(e.op, ast.Mod) and isinstance(a, str) and not a.startswith("<") and (isinstance(b, (str, int)) or (isinstance(b, tuple) and all(isinstance(x, (str, int)) for x in b))) \
+            if isinstance(e.op, ast.Mod) and isinstance(a, str) and not a.startswith("<") and (isinstance(b, (str, int, float)) or (isinstance(b, tuple) and all(isinstance(x, (str, int, float)) for x in b))) \
                     and not (isinstance(b, str) and b.startswith("<")):
                 try:
                     return a % b
